@@ -11,7 +11,12 @@ go build -tags verif -overlay "$ovl/overlay.json" -o "$here/bin/check.setup" .
 python3 "$here/scripts/overlay.py" "$ovl" --points
 go build -tags "verif decimal_pure_go" -overlay "$ovl/overlay.json" -o "$here/bin/check.setup" .
 rm -rf "$ovl"
-for t in "verif math_big_pure_go" "verif decimal_pure_go math_big_pure_go" "verif decimal_pure_go" "verif"; do go build -tags "$t" -o "$here/bin/check.setup" . ; done
+ovl="$(mktemp -d /tmp/verif-ovl.XXXXXX)"
+python3 "$here/scripts/overlay.py" "$ovl"
+for t in "verif math_big_pure_go" "verif decimal_pure_go math_big_pure_go" "verif decimal_pure_go" "verif"; do go build -tags "$t" -overlay "$ovl/overlay.json" -o "$here/bin/check.setup" . ; done
+python3 "$here/scripts/overlay.py" "$ovl" --points
+go build -race -tags "verif decimal_pure_go" -overlay "$ovl/overlay.json" -o "$here/bin/check.setup" .
+rm -rf "$ovl"
 rm -f "$here/bin/check.setup"
 rm -f "$here/bin/check.setup"
 echo "setup ok"
